@@ -110,6 +110,100 @@ def with_long(execute):
     return run
 
 
+_DEBUG_CLASSES = None
+
+
+def _debug_classes():
+    """every class of the package under test whose constructor takes a `debug` flag"""
+    global _DEBUG_CLASSES
+    if _DEBUG_CLASSES is None:
+        import inspect
+        import pkgutil
+        import importlib
+        import onl
+        out = []
+        seen = set()
+        for m in pkgutil.walk_packages(onl.__path__, "onl."):
+            try:
+                mod = importlib.import_module(m.name)
+            except Exception:  # noqa
+                continue
+            for name, c in vars(mod).items():
+                if inspect.isclass(c) and c.__module__.startswith("onl.") and id(c) not in seen and "__init__" in c.__dict__:
+                    seen.add(id(c))
+                    try:
+                        sig = inspect.signature(c.__dict__["__init__"])
+                    except (TypeError, ValueError):
+                        continue
+                    if "debug" in sig.parameters:
+                        out.append((c, c.__dict__["__init__"], sig))
+        _DEBUG_CLASSES = out
+    return _DEBUG_CLASSES
+
+
+def with_debug(execute):
+    """configurations carrying debug=1 are run with every element of the package constructed with debug=True (unless the
+    caller passes the flag itself): the trace output goes to a null stream, the behaviour must be the same"""
+    def run(ch, cfg):
+        if not cfg.get("debug"):
+            return execute(ch, cfg)
+        classes = _debug_classes()
+
+        def mk(orig, sig):
+            def init(self, *a, **k):
+                if "debug" not in k:
+                    try:
+                        if "debug" not in sig.bind_partial(self, *a, **k).arguments:
+                            k["debug"] = True
+                    except TypeError:
+                        pass
+                return orig(self, *a, **k)
+            return init
+        for (c, orig, sig) in classes:
+            c.__init__ = mk(orig, sig)
+        real = sys.stdout
+        null = open(os.devnull, "w")
+        sys.stdout = null
+        try:
+            return execute(ch, cfg)
+        finally:
+            sys.stdout = real
+            null.close()
+            for (c, orig, sig) in classes:
+                c.__init__ = orig
+    return run
+
+
+KIND_KEYS = ("kind", "sched", "shape", "a", "b", "server", "cc", "map", "mon", "mailbox", "twin", "peak", "pir", "loss", "qtype")
+
+
+def kind_key(c):
+    return tuple((k, repr(c[k])) for k in KIND_KEYS if k in c)
+
+
+def add_debug_variants(cfgs):
+    """debug=1 copies of every long fixed workload and of the first fully explored configuration of each kind"""
+    n = add_debug(cfgs, skip=lambda c: not c.get("long"))
+    n += add_debug(cfgs, key=kind_key, skip=lambda c: c.get("long") or c.get("endurance"))
+    return n
+
+
+def add_debug(cfgs, key=None, skip=lambda c: False):
+    """append a debug=1 copy of every configuration (or of the first one per `key`)"""
+    out, seen = [], set()
+    for c in cfgs:
+        if skip(c) or c.get("debug"):
+            continue
+        if key is not None:
+            k = key(c)
+            if k in seen:
+                continue
+            seen.add(k)
+        out.append(dict(c, debug=1))
+    cfgs.extend(out)
+    return len(out)
+
+
 LONG_PATTERNS = [[3, 17, 8, 29, 11, 23, 5, 14, 26, 0, 19], [2, 27, 13, 8, 22, 18, 1], [0, 10, 1, 20, 2, 0, 30, 0, 3, 12, 0, 21, 5]]
 
 
@@ -217,15 +311,44 @@ def _trim(choices):
     return c
 
 
+class ExecTimeout(BaseException):
+    """raised inside an execution that runs longer than any execution on the verified tree (a loop that never yields)"""
+
+
+_EXEC_MAX = [float(os.environ.get("VERIF_EXEC_MAX_S", "0") or 0) or 90.0]
+
+
+def _alarm(signum, frame):
+    raise ExecTimeout("one execution ran longer than %.0f s" % _EXEC_MAX[0])
+
+
 def guarded(execute, prop=None):
     """wrap a harness so that an exception escaping it (from the code under test through an API call the harness makes,
     or from an oracle that meets a shape of behaviour it was not written for) becomes a reported result with a replay,
     instead of killing the whole exploration"""
+    import signal
+
     def run(ch, cfg):
+        # watchdog: on the verified tree an execution takes milliseconds (the long fixed workloads a few seconds); an
+        # execution that spins without ever yielding to the kernel cannot be stopped by any step bound
+        signal.signal(signal.SIGALRM, _alarm)
+        signal.setitimer(signal.ITIMER_REAL, _EXEC_MAX[0])
         try:
             return execute(ch, cfg)
         except ReplayDivergence:
             raise
+        except ExecTimeout as e:
+            _EXEC_MAX[0] = min(_EXEC_MAX[0], 10.0)      # the next ones in this process are given less
+            import traceback
+            tb = traceback.extract_tb(e.__traceback__)
+            where = "?"
+            for fr in tb:
+                if "/onl/" in fr.filename:
+                    where = "%s:%s" % ("/".join(fr.filename.split("/")[-2:]), fr.name)
+            r = Result()
+            r.digest = ("timeout", where)
+            r.bad("%s.noraise" % (prop or "check"), "execution-never-ends@%s" % where, str(e))
+            return r
         except Exception as e:  # noqa
             import traceback
             tb = traceback.extract_tb(e.__traceback__)
@@ -241,6 +364,8 @@ def guarded(execute, prop=None):
             r.digest = ("exception", type(e).__name__, where)
             r.bad("%s.noraise" % (prop or "check"), "unexpected-%s-in-%s@%s" % (type(e).__name__, origin, where), repr(e)[:300])
             return r
+        finally:
+            signal.setitimer(signal.ITIMER_REAL, 0)
     return run
 
 
@@ -250,7 +375,7 @@ def run_one(execute, cfg, prefix, budget=None, record=False):
     return ch, res
 
 
-def explore_subtree(execute, cfg, cfg_idx, root, budget, stats, limit=None, frontier=None):
+def explore_subtree(execute, cfg, cfg_idx, root, budget, stats, limit=None, frontier=None, deadline=None):
     """DFS over all executions whose choice sequence extends `root`.
     With `limit`/`frontier`: stop expanding once `limit` executions were run and return the
     unexpanded prefixes in `frontier` (used by the parent to split work)."""
@@ -260,6 +385,8 @@ def explore_subtree(execute, cfg, cfg_idx, root, budget, stats, limit=None, fron
     while stack:
         if cap and stats.executions >= cap:
             return
+        if deadline is not None and time.time() > deadline:
+            raise Deadline("serial phase: configuration %d" % cfg_idx)
         if limit is not None and (len(stack) >= limit or done >= 40 * limit):
             frontier.extend(stack)
             return
@@ -325,7 +452,7 @@ def explore_all(execute, cfgs, budget=None, workers=None, split_target=4096, sel
                     mismatches.append((idx, []))
             frontier = []
             per_cfg = max(4, -(-split_target // max(1, len(cfgs))))
-            explore_subtree(execute, cfg, idx, [], budget, total, limit=per_cfg, frontier=frontier)
+            explore_subtree(execute, cfg, idx, [], budget, total, limit=per_cfg, frontier=frontier, deadline=deadline)
             items.extend((idx, p) for p in frontier)
     finally:
         sys.stdout.close()
